@@ -314,6 +314,15 @@ def ack_timeout_handler(m: Model, r: Report, rid: str, fn: FuncInfo, ack_call: s
     """The ack wait is under wait_for; its TimeoutError handler closes the connection, then raises BrokenPipeError."""
     waits = [n for n in ast.walk(fn.node) if isinstance(n, ast.Call) and ast.unparse(n.func) == "asyncio.wait_for"
              and n.args and ack_call in ast.unparse(n.args[0])]
+    if not waits:
+        # the awaited coroutine may be chosen first and awaited in one place: `conf = self._read_ack(...)` ... `await asyncio.wait_for(conf, t)`
+        holders = {n.targets[0].id for n in ast.walk(fn.node) if isinstance(n, ast.Assign) and isinstance(n.targets[0], ast.Name) and ack_call in ast.unparse(n.value)} | \
+                  {e_.id for n in ast.walk(fn.node) if isinstance(n, ast.Assign) and isinstance(n.targets[0], ast.Tuple) and isinstance(n.value, ast.Tuple)
+                   for e_, v_ in zip(n.targets[0].elts, n.value.elts) if isinstance(e_, ast.Name) and ack_call in ast.unparse(v_)}
+        waits = [n for n in ast.walk(fn.node) if isinstance(n, ast.Call) and ast.unparse(n.func) == "asyncio.wait_for" and n.args and isinstance(n.args[0], ast.Name) and n.args[0].id in holders]
+        if not waits and holders:
+            r.unrecognised(rid, f"{fn.qualname}#ack-wait-bounded", f"the coroutine of {ack_call} is held in {sorted(holders)} and awaited in a way the rule does not follow", fn.loc)
+            return
     r.check(len(waits) >= 1 and all(len(w.args) >= 2 or any(k.arg == "timeout" for k in w.keywords) for w in waits), rid,
             f"{fn.qualname}#ack-wait-bounded", f"the wait for {ack_call} is not bounded by asyncio.wait_for(..., timeout)", loc=fn.loc)
     for w in waits:
